@@ -32,8 +32,15 @@ class RegWorld:
         self.denoms = denoms
         # some denoms are never registered with the factory
         self.unregistered = set(rng.sample(denoms, 1 if all_extras else rng.randrange(1, 3)))
+        # of two denoms that differ only in letter case, (usually) exactly one is registered
+        low = {}
+        for d in denoms:
+            low.setdefault(d.lower(), []).append(d)
+        for group in low.values():
+            if len(group) > 1 and rng.random() < 0.7:
+                self.unregistered.add(rng.choice(group))
         srv.reset_log()
-        r = srv.send({"op": "new", "balances": [["owner", d, "1000000"] for d in denoms]})
+        r = srv.send({"op": "new", "balances": [["owner", d, "1000000000"] for d in denoms]})
         self.codes = r["v"]
         self.factory = self._inst("factory", {"pair_code_id": self.codes["pair"], "token_code_id": self.codes["cw20"]})
         self.tokens = []
@@ -41,7 +48,7 @@ class RegWorld:
         for i in range(n_tokens):
             dec = rng.choice([0, 6, 8, 18])
             t = self._inst("cw20", {"name": "token%d" % i, "symbol": "TK" + "ABCDEFGHIJ"[i], "decimals": dec,
-                                    "initial_balances": [{"address": "owner", "amount": "1000000"}], "mint": None})
+                                    "initial_balances": [{"address": "owner", "amount": "1000000000"}], "mint": None})
             self.tokens.append(t)
             self.true_dec[("t", t)] = dec
         self.reg = {}      # denom -> decimals (model of the native registry)
@@ -104,6 +111,18 @@ class RegWorld:
                    "whitelist": list(whitelist or []), "mins": [int(mins[0]), int(mins[1])],
                    "decimals": [self.decimals_of(a0) if self.valid(a0) else None, self.decimals_of(a1) if self.valid(a1) else None]}
         return r, rec
+
+    def fund(self, rec, amounts=(1000, 1000)):
+        """first provision by the owner (who must be whitelisted): the pair then holds liquidity and LP supply"""
+        funds = []
+        for a, amt in zip(rec["assets"], amounts):
+            if a[0] == "t":
+                self.x("owner", a[1], {"increase_allowance": {"spender": rec["addr"], "amount": str(amt)}})
+            else:
+                funds.append([a[1], str(amt)])
+        msg = {"provide_liquidity": {"assets": [{"info": ainfo(a), "amount": str(amt)} for a, amt in zip(rec["assets"], amounts)],
+                                     "slippage_tolerance": None, "receiver": None}}
+        return self.x("owner", rec["addr"], msg, funds=sorted(funds))
 
     def lookup(self, a0, a1):
         return self.q(self.factory, {"pair": {"asset_infos": [ainfo(a0), ainfo(a1)]}})
